@@ -305,8 +305,11 @@ Definition exec_op (cfg : config) (tl : timeline) (o : op) : timeline * opres :=
   | OUpdate t s q d count =>
       match find_track t (tracks tl) with
       | Some tr => let '(tl1, tr1) := track_update cfg tl tr s q d count in (upd_track tl1 tr1, ROk)
-      | None =>   (* the object is no longer scheduled: only the deferred start (if any) is left behind *)
-          let '(tl1, _) := track_update cfg tl (new_track t None true None) s q d count in (tl1, ROk)
+      | None =>   (* the object is no longer scheduled: only the deferred start (if any) is left behind;
+                     an index that no schedule call has created yet denotes no object at all: no-op *)
+          if (t <? next_id tl)%nat then
+            let '(tl1, _) := track_update cfg tl (new_track t None true None) s q d count in (tl1, ROk)
+          else (tl, ROk)
       end
   | OUnschedule t =>
       match find_track t (tracks tl) with
@@ -327,6 +330,15 @@ Fixpoint exec_cb_ops (cfg : config) (tl : timeline) (ops : list op) : timeline :
   | [] => tl
   | o :: r => let '(tl', res) := exec_op cfg tl o in
               match res with ROk => exec_cb_ops cfg tl' r | _ => tl' end
+  end.
+
+(* did every operation of the callback succeed?  (an operation that raises aborts the callback with THAT
+   exception, so the callback's own final raise - StopIteration included - does not happen) *)
+Fixpoint cb_completes (cfg : config) (tl : timeline) (ops : list op) : bool :=
+  match ops with
+  | [] => true
+  | o :: r => let '(tl', res) := exec_op cfg tl o in
+              match res with ROk => cb_completes cfg tl' r | _ => false end
   end.
 
 (* phase 1: note-offs of every track, in track order *)
@@ -382,7 +394,7 @@ Definition tick_one (cfg : config) (tl : timeline) (id : nat) : timeline * list 
       | TCallback cb =>
           let '(rk, ops) := nth cb (cbs cfg) (CbNone, []) in
           let tl2 := exec_cb_ops cfg tl1 ops in
-          (finish_track cfg tl2 id (match rk with CbStop => true | _ => false end), c, None)
+          (finish_track cfg tl2 id (match rk with CbStop => cb_completes cfg tl1 ops | _ => false end), c, None)
       | TRaise =>
           if ignore_exc cfg then (remove_track tl1 id, c, None) else (tl1, c, Some RException)
       | TOutOfFuel => (tl1, c, Some ROutOfFuel)
